@@ -2,7 +2,7 @@
 #include "h.h"
 
 #define MAXTH 8
-#define MAXOPS 16
+#define MAXOPS 24   // >= 2 x the longest generated sequence: the balancing leaves must always fit
 
 /* =========================================================== C08: semaphores */
 enum { S_WAIT_FOREVER, S_WAIT_TIMED, S_WAIT_NOW, S_SIGNAL, S_PAUSE, S_N };
